@@ -597,13 +597,45 @@ Ltac decide_cmp :=
           | |- context [?a =? ?b] => destruct (Z.eqb_spec a b); try (exfalso; lia)
           end); cbn; auto.
 
+Lemma py_fold_cases : forall x,
+  py_fold x = x \/ (65 <= x <= 90 /\ py_fold x = x + 32) \/ (65313 <= x <= 65338 /\ py_fold x = x + 32) \/
+  (x = 8490 /\ py_fold x = 107) \/ (x = 201 /\ py_fold x = 233) \/ (x = 7728 /\ py_fold x = 7729).
+Proof.
+  intros x. unfold py_fold, ascii_lower, fw_upper, between.
+  destruct (Z.ltb_spec x 128).
+  - destruct (Z.leb_spec 65 x), (Z.leb_spec x 90); cbn [andb]; try (right; left; lia); left; reflexivity.
+  - destruct (Z.leb_spec 65313 x), (Z.leb_spec x 65338); cbn [andb]; try (right; right; left; lia).
+    all: destruct (Z.eqb_spec x 8490); [right; right; right; left; lia|].
+    all: destruct (Z.eqb_spec x 201); [right; right; right; right; left; lia|].
+    all: destruct (Z.eqb_spec x 7728); [right; right; right; right; right; lia|].
+    all: left; reflexivity.
+Qed.
+
+(* every comparison is settled by the range hypothesis in context: no case split *)
+Ltac settle_cmp :=
+  repeat (match goal with
+          | |- context [?a <=? ?b] =>
+              first [ replace (a <=? b) with true by (symmetry; apply Z.leb_le; lia)
+                    | replace (a <=? b) with false by (symmetry; apply Z.leb_gt; lia) ]
+          | |- context [?a =? ?b] =>
+              first [ replace (a =? b) with true by (symmetry; apply Z.eqb_eq; lia)
+                    | replace (a =? b) with false by (symmetry; apply Z.eqb_neq; lia) ]
+          | |- context [?a <? ?b] =>
+              first [ replace (a <? b) with true by (symmetry; apply Z.ltb_lt; lia)
+                    | replace (a <? b) with false by (symmetry; apply Z.ltb_ge; lia) ]
+          end); cbn [andb orb]; try reflexivity.
+
 Lemma py_cc_ok : cc_ok py_cc.
 Proof.
-  assert (F : forall x, ascii_lower x = x \/ (65 <= x <= 90 /\ ascii_lower x = x + 32)).
-  { intros x. unfold ascii_lower, between. destruct (65 <=? x) eqn:A, (x <=? 90) eqn:B; cbn; auto. right. lia. }
-  constructor; cbn [py_cc cc_fold cc_word cc_space cc_digit]; intros x; destruct (F x) as [->|[R ->]]; auto.
-  - unfold py_word, between, extra_word, zmem. decide_cmp.
-  - unfold py_space, between, extra_space, zmem. decide_cmp.
-  - unfold py_digit, between, extra_digit, zmem. decide_cmp.
-  - decide_cmp.
+  constructor; cbn [py_cc cc_fold cc_word cc_space cc_digit]; intros x;
+    destruct (py_fold_cases x) as [->|[[R ->]|[[R ->]|[[-> ->]|[[-> ->]|[-> ->]]]]]]; auto;
+    try (vm_compute; reflexivity).
+  - unfold py_word, fw_digit, fw_upper, fw_lower, between, extra_word, zmem. settle_cmp.
+  - unfold py_word, fw_digit, fw_upper, fw_lower, between, extra_word, zmem. settle_cmp.
+  - unfold py_space, between, extra_space, zmem. settle_cmp.
+  - unfold py_space, between, extra_space, zmem. settle_cmp.
+  - unfold py_digit, fw_digit, between, extra_digit, zmem. settle_cmp.
+  - unfold py_digit, fw_digit, between, extra_digit, zmem. settle_cmp.
+  - settle_cmp.
+  - settle_cmp.
 Qed.
